@@ -1465,3 +1465,54 @@ def attribute_memo_keys_complete(ctx, rule, classes):
 def _is_none_test(t):
     return isinstance(t, ast.Compare) and len(t.ops) == 1 and isinstance(t.ops[0], (ast.Is, ast.IsNot)) and \
         isinstance(t.comparators[0], ast.Constant) and t.comparators[0].value is None
+
+
+SWALLOWED = ('ValueError', 'ZeroDivisionError', 'ArithmeticError', 'FloatingPointError', 'OverflowError', 'RuntimeError',
+             'Exception', 'BaseException', 'LinAlgError')
+
+
+def refusals_not_swallowed(ctx, rule, classes=('Container', 'Plate', 'PlateSlicer', 'Recipe', 'RecipeStep', 'Unit', 'Slicer', 'Substance')):
+    """The refusals of the library are exceptions (ValueError for an infeasible request; a ZeroDivisionError or LinAlgError
+    where the arithmetic has no answer).  A handler for one of them that does not end in a `raise` turns the refusal of the
+    operation inside the `try` into a result: a fill beyond the capacity "topped up to the brim", a share of an empty
+    source answered with 0.0, a singular system answered with the whole stock.  Handlers that translate (`raise X from
+    exc`) are the accepted form; look-up idioms (KeyError, AttributeError, StopIteration ..) are not concerned."""
+    model = ctx.model.plain()
+    n = 0
+    bad = []
+    for fi in model.funcs.values():
+        if fi.mod.rel not in ('pyplate/pyplate.py', 'pyplate/slicer.py') or fi.cls is None or fi.cls.name not in classes:
+            continue
+        if fi.parent is not None:
+            continue
+        for t in ast.walk(fi.node):
+            if not isinstance(t, ast.Try):
+                continue
+            for h in t.handlers:
+                names = []
+                if h.type is None:
+                    names = ['BaseException']
+                else:
+                    for x in ast.walk(h.type):
+                        if isinstance(x, ast.Name):
+                            names.append(x.id)
+                        elif isinstance(x, ast.Attribute):
+                            names.append(x.attr)
+                hit = [nm for nm in names if nm in SWALLOWED]
+                if not hit:
+                    continue
+                n += 1
+                ends_in_raise = bool(h.body) and isinstance(h.body[-1], ast.Raise)
+                if not ends_in_raise:
+                    bad.append((fi, h.lineno, hit[0], ast.unparse(t.body[0])[:50]))
+    anchor = model.func('Unit.parse_quantity')
+    for fi, line, exc, what in bad:
+        ctx.ob(rule, ctx.model.funcs.get(fi.qualname, anchor), line, f"{fi.qualname}: the handler of {exc} ends in a raise", False,
+               fact=f"`{what}` is tried; the handler continues without raising",
+               why='a refusal raised inside the try (an infeasible request, an arithmetic impossibility) is converted into a result',
+               key=f"swallowed {exc} in {fi.qualname}")
+    ctx.ob(rule, ctx.model.funcs.get(anchor.qualname, anchor), anchor.node.lineno, 'every handler of a refusal re-raises', not bad,
+           fact=f"{n} handler(s) of {'/'.join(SWALLOWED[:3])}/.. examined", why='see the reports', key='swallowed refusals',
+           nontrivial=False)
+    from .common import floor as _floor
+    _floor(ctx, 'handlers of refusals', n, 2)
